@@ -1,44 +1,55 @@
 #!/usr/bin/env python3
-"""Commit ONE replacement in /repo without touching other people's uncommitted hunks.
+"""Commit ONE set of replacements in /repo, isolated from other builders' uncommitted edits.
 usage: repo_commit.py <triples.py> <msgfile>   (triples.py defines PATCHES = [(file, old, new), ...])
-The replacement is applied to the working-tree file and, separately, to the HEAD version of the file
-(staged through a temporary index), so only these hunks are committed."""
-import os, subprocess, sys, tempfile
+The replacements are applied to a clean temporary worktree of HEAD, the pinned suite is run THERE,
+the commit is created there and main is fast-forwarded to it; the same replacements are then applied
+to the shared working tree (which may hold other people's uncommitted hunks) and the index refreshed."""
+import os, shutil, subprocess, sys, tempfile
 ns = {}
 exec(open(sys.argv[1]).read(), ns)
 msg = open(sys.argv[2]).read()
 R = '/repo'
-def sh(*a, **k):
-    return subprocess.run(a, cwd=R, stdout=subprocess.PIPE, stderr=subprocess.STDOUT, universal_newlines=True, **k)
+def sh(*a, cwd=R, check=False):
+    r = subprocess.run(a, cwd=cwd, stdout=subprocess.PIPE, stderr=subprocess.STDOUT, universal_newlines=True)
+    if check and r.returncode:
+        sys.exit('%s failed:\n%s' % (' '.join(a), r.stdout))
+    return r.stdout
+for f, old, new in ns['PATCHES']:
+    s = open(os.path.join(R, f)).read()
+    assert s.count(old) == 1, (f, 'old text not found exactly once in the shared working tree')
+wt = tempfile.mkdtemp(prefix='repo_wt_')
+os.rmdir(wt)
+old_head = sh('git', 'rev-parse', 'HEAD', check=True).strip()
+sh('git', 'worktree', 'add', '--detach', wt, old_head, check=True)
+try:
+    for f, old, new in ns['PATCHES']:
+        p = os.path.join(wt, f)
+        s = open(p).read()
+        assert s.count(old) == 1, (f, 'old text not found exactly once in HEAD')
+        open(p, 'w').write(s.replace(old, new))
+    out = sh('/venv/bin/python', '-m', 'pytest', '-q', '-p', 'no:cacheprovider', cwd=wt)
+    tail = out.strip().splitlines()[-1]
+    print(tail)
+    if '1149 passed' not in tail:
+        print(out[-3000:])
+        sys.exit('suite not green on clean HEAD + patch; nothing committed')
+    sh('git', 'commit', '-q', '-a', '-m', msg, cwd=wt, check=True)
+    new_head = sh('git', 'rev-parse', 'HEAD', cwd=wt, check=True).strip()
+    cur = sh('git', 'rev-parse', 'HEAD', check=True).strip()
+    if cur != old_head:
+        # somebody committed meanwhile: replay our commit on top
+        sh('git', 'checkout', '-q', '--detach', cur, cwd=wt, check=True)
+        sh('git', 'cherry-pick', new_head, cwd=wt, check=True)
+        new_head = sh('git', 'rev-parse', 'HEAD', cwd=wt, check=True).strip()
+        old_head = cur
+    branch = sh('git', 'symbolic-ref', '--short', 'HEAD', check=True).strip()
+    sh('git', 'update-ref', 'refs/heads/' + branch, new_head, old_head, check=True)
+finally:
+    sh('git', 'worktree', 'remove', '--force', wt)
+    shutil.rmtree(wt, ignore_errors=True)
 for f, old, new in ns['PATCHES']:
     p = os.path.join(R, f)
     s = open(p).read()
-    assert s.count(old) == 1, (f, 'old text not found exactly once in working tree')
     open(p, 'w').write(s.replace(old, new))
-r = sh('/venv/bin/python', '-m', 'pytest', '-q', '-p', 'no:cacheprovider')
-tail = r.stdout.strip().splitlines()[-1]
-print(tail)
-if '1149 passed' not in tail:
-    for f, old, new in ns['PATCHES']:
-        p = os.path.join(R, f)
-        s = open(p).read()
-        open(p, 'w').write(s.replace(new, old))
-    sys.exit('suite not green (possibly because of other uncommitted edits); my hunks backed out')
-env = dict(os.environ, GIT_INDEX_FILE=tempfile.mktemp(prefix='idx'))
-subprocess.run(['git', 'read-tree', 'HEAD'], cwd=R, env=env, check=True)
-for f, old, new in ns['PATCHES']:
-    head = sh('git', 'show', 'HEAD:' + f).stdout
-    assert head.count(old) == 1, (f, 'old text not found exactly once in HEAD version')
-    blob = subprocess.run(['git', 'hash-object', '-w', '--stdin'], cwd=R, input=head.replace(old, new),
-                          stdout=subprocess.PIPE, universal_newlines=True, check=True).stdout.strip()
-    mode = sh('git', 'ls-files', '-s', f).stdout.split()[0]
-    subprocess.run(['git', 'update-index', '--cacheinfo', '%s,%s,%s' % (mode, blob, f)], cwd=R, env=env, check=True)
-tree = subprocess.run(['git', 'write-tree'], cwd=R, env=env, stdout=subprocess.PIPE, universal_newlines=True, check=True).stdout.strip()
-parent = sh('git', 'rev-parse', 'HEAD').stdout.strip()
-commit = subprocess.run(['git', 'commit-tree', tree, '-p', parent, '-m', msg], cwd=R, stdout=subprocess.PIPE,
-                        universal_newlines=True, check=True).stdout.strip()
-subprocess.run(['git', 'update-ref', 'HEAD', commit, parent], cwd=R, check=True)
-# refresh the real index for the touched files so `git status` shows only others' hunks
-subprocess.run(['git', 'reset', '-q', '--'] + [f for f, _, _ in ns['PATCHES']], cwd=R)
-os.unlink(env['GIT_INDEX_FILE'])
-print(sh('git', 'log', '--oneline', '-1').stdout.strip())
+sh('git', 'reset', '-q', '--', *[f for f, _, _ in ns['PATCHES']])
+print(sh('git', 'log', '--oneline', '-1').strip())
